@@ -537,14 +537,94 @@ package decimal
 
 //@ func (x *Decimal) ucmp(y *Decimal) int
 //@   pure
+//@   nomerge
 //@   requires[wf] finop_long(x) && finop_long(y)
 //@   ensures[range,C16] 0 - 1 <= result && result <= 1
-//@   ensures[value,C16,C01,assumed] (result > 0 <==> absgt(x, y)) && (result == 0 <==> abseq(x, y))
+//@   ensures[value,C16,C01] (result > 0 <==> absgt(x, y)) && (result == 0 <==> abseq(x, y))
+//@   ensures[value_exp,C16,C01] (x.exp < y.exp ==> !absgt(x, y) && !abseq(x, y)) && (x.exp > y.exp ==> absgt(x, y))
+//@   hint[entry] V_bounds(x.mant, 0, len(x.mant))
+//@   hint[entry] V_bounds(y.mant, 0, len(y.mant))
+//@   hint[entry] V_top(x.mant, 0, len(x.mant))
+//@   hint[entry] V_top(y.mant, 0, len(y.mant))
+//@   hint[entry] mul_mono(B/10, x.mant[len(x.mant)-1], P(len(x.mant)-1))
+//@   hint[entry] mul_mono(B/10, y.mant[len(y.mant)-1], P(len(y.mant)-1))
+//@   hint[entry] Pdef(len(x.mant)-1)
+//@   hint[entry] Pdef(len(y.mant)-1)
+//@   hint[entry] p10_P(len(x.mant))
+//@   hint[entry] p10_P(len(y.mant))
+//@   hint[entry] assert(10*V(x.mant) >= p10(19*len(x.mant)) && V(x.mant) < p10(19*len(x.mant)) && 10*V(y.mant) >= p10(19*len(y.mant)) && V(y.mant) < p10(19*len(y.mant)))
+//@   hint[entry] qexp(x) <= qexp(y) ==> p10_add(19*len(y.mant), qexp(y) - qexp(x))
+//@   hint[entry] qexp(x) <= qexp(y) ==> p10_add(19*len(x.mant) - 1, 1)
+//@   hint[entry] qexp(x) <= qexp(y) ==> mul_mono(p10(19*len(y.mant)), 10*V(y.mant), p10(qexp(y) - qexp(x)))
+//@   hint[entry] qexp(x) <= qexp(y) ==> mul_mono(V(y.mant) + 1, p10(19*len(y.mant)), p10(qexp(y) - qexp(x)))
+//@   hint[entry] qexp(x) <= qexp(y) && x.exp < y.exp ==> p10_mono(19*len(x.mant) + 1, 19*len(y.mant) + qexp(y) - qexp(x))
+//@   hint[entry] qexp(x) <= qexp(y) && x.exp > y.exp ==> p10_mono(19*len(y.mant) + qexp(y) - qexp(x), 19*len(x.mant) - 1)
+//@   hint[entry] qexp(x) > qexp(y) ==> p10_add(19*len(x.mant), qexp(x) - qexp(y))
+//@   hint[entry] qexp(x) > qexp(y) ==> mul_mono(p10(19*len(x.mant)), 10*V(x.mant), p10(qexp(x) - qexp(y)))
+//@   hint[entry] qexp(x) > qexp(y) ==> mul_mono(V(x.mant) + 1, p10(19*len(x.mant)), p10(qexp(x) - qexp(y)))
+//@   hint[entry] qexp(x) > qexp(y) && x.exp > y.exp ==> p10_mono(19*len(y.mant) + 1, 19*len(x.mant) + qexp(x) - qexp(y))
+//@   hint[entry] qexp(x) > qexp(y) && x.exp < y.exp ==> p10_mono(19*len(x.mant) + qexp(x) - qexp(y), 19*len(y.mant) - 1)
+//@   hint[entry] p10def(19*len(x.mant) - 1)
+//@   hint[entry] p10def(19*len(y.mant) - 1)
+//@   hint[entry] p10def(19*len(x.mant))
+//@   hint[entry] p10def(19*len(y.mant))
 //@   ensures[exp,C16] x.exp < y.exp ==> result == 0 - 1
 //@   ensures[exp2,C16] x.exp > y.exp ==> result == 1
 //@   ensures[self,C16] x == y ==> result == 0
+//@   ensures[value_eq,C16,C01] x.exp == y.exp ==> (result > 0 <==> absgt(x, y)) && (result == 0 <==> abseq(x, y))
 //@   loop 1 invariant[range] 0 <= i && i <= len(x.mant) && 0 <= j && j <= len(y.mant)
 //@   loop 1 invariant[self] x == y ==> i == j
+//@   loop 1 invariant[pos] (i > 0 ==> len(x.mant) - i >= len(y.mant) - j) && (j > 0 ==> len(y.mant) - j >= len(x.mant) - i)
+//@   loop 1 invariant[eqx] forall k in i..len(x.mant) :: x.mant[k] == (k - len(x.mant) + len(y.mant) >= 0 ? y.mant[k - len(x.mant) + len(y.mant)] : 0)
+//@   loop 1 invariant[eqy] forall k in j..len(y.mant) :: y.mant[k] == (k - len(y.mant) + len(x.mant) >= 0 ? x.mant[k - len(y.mant) + len(x.mant)] : 0)
+//@   hint[ret] x.exp == y.exp && len(x.mant) >= len(y.mant) ==> p10_P(len(x.mant) - len(y.mant))
+//@   hint[ret] x.exp == y.exp && len(x.mant) <  len(y.mant) ==> p10_P(len(y.mant) - len(x.mant))
+//@   hint[ret] x.exp == y.exp ==> V_split(x.mant, 0, i, len(x.mant))
+//@   hint[ret] x.exp == y.exp ==> V_split(y.mant, 0, j, len(y.mant))
+//@   hint[ret] x.exp == y.exp && i < len(x.mant) ==> V_low(x.mant, i, len(x.mant))
+//@   hint[ret] x.exp == y.exp && j < len(y.mant) ==> V_low(y.mant, j, len(y.mant))
+//@   hint[ret] x.exp == y.exp ==> V_bounds(x.mant, 0, i)
+//@   hint[ret] x.exp == y.exp ==> V_bounds(y.mant, 0, j)
+//@   hint[ret] x.exp == y.exp && result != 0 && len(x.mant) - i == len(y.mant) - j && i < len(x.mant) ==> V_eq_shift(x.mant, y.mant, i+1, len(x.mant), j - i)
+//@   hint[ret] x.exp == y.exp && i >= j ==> P_add(j, i - j)
+//@   hint[ret] x.exp == y.exp && i >= j ==> P_add(j + 1, i - j)
+//@   hint[ret] x.exp == y.exp && i < j ==> P_add(i, j - i)
+//@   hint[ret] x.exp == y.exp && i < j ==> P_add(i + 1, j - i)
+//@   hint[ret] x.exp == y.exp && i >= j ==> mul_mono(V(y.mant, 0, j) + 1, P(j), P(i - j))
+//@   hint[ret] x.exp == y.exp && i >= j ==> mul_mono(0, V(y.mant, 0, j), P(i - j))
+//@   hint[ret] x.exp == y.exp && i < j ==> mul_mono(V(x.mant, 0, i) + 1, P(i), P(j - i))
+//@   hint[ret] x.exp == y.exp && i < j ==> mul_mono(0, V(x.mant, 0, i), P(j - i))
+//@   hint[ret] x.exp == y.exp && i < len(x.mant) && j < len(y.mant) && x.mant[i] < y.mant[j] ==> mul_mono(x.mant[i] + 1, y.mant[j], P(i >= j ? i : j))
+//@   hint[ret] x.exp == y.exp && i < len(x.mant) && j < len(y.mant) && y.mant[j] < x.mant[i] ==> mul_mono(y.mant[j] + 1, x.mant[i], P(i >= j ? i : j))
+//@   hint[ret] x.exp == y.exp ==> Pdef(i >= j ? i : j)
+//@   hint[ret] x.exp == y.exp && (result == 0 || len(x.mant) - i < len(y.mant) - j) && len(x.mant) <= len(y.mant) ==> V_eq_shift(x.mant, y.mant, 0, len(x.mant), len(y.mant) - len(x.mant))
+//@   hint[ret] x.exp == y.exp && len(x.mant) <= len(y.mant) ==> V_split(y.mant, 0, len(y.mant) - len(x.mant), len(y.mant))
+//@   hint[ret] x.exp == y.exp && len(x.mant) <= len(y.mant) ==> V_nonneg(y.mant, 0, len(y.mant) - len(x.mant))
+//@   hint[ret] x.exp == y.exp && len(x.mant) - i < len(y.mant) - j && j < len(y.mant) - len(x.mant) && y.mant[j] > 0 ==> V_pos(y.mant, 0, len(y.mant) - len(x.mant), j)
+//@   hint[ret] x.exp == y.exp && result == 0 && len(x.mant) <= len(y.mant) ==> V_zero(y.mant, 0, len(y.mant) - len(x.mant))
+//@   hint[ret] x.exp == y.exp && (result == 0 || len(y.mant) - j < len(x.mant) - i) && len(y.mant) <= len(x.mant) ==> V_eq_shift(y.mant, x.mant, 0, len(y.mant), len(x.mant) - len(y.mant))
+//@   hint[ret] x.exp == y.exp && len(y.mant) <= len(x.mant) ==> V_split(x.mant, 0, len(x.mant) - len(y.mant), len(x.mant))
+//@   hint[ret] x.exp == y.exp && len(y.mant) <= len(x.mant) ==> V_nonneg(x.mant, 0, len(x.mant) - len(y.mant))
+//@   hint[ret] x.exp == y.exp && len(y.mant) - j < len(x.mant) - i && i < len(x.mant) - len(y.mant) && x.mant[i] > 0 ==> V_pos(x.mant, 0, len(x.mant) - len(y.mant), i)
+//@   hint[ret] x.exp == y.exp && result == 0 && len(y.mant) <= len(x.mant) ==> V_zero(x.mant, 0, len(x.mant) - len(y.mant))
+//@   hint[ret] x.exp == y.exp && i < len(x.mant) ==> mul_eq(V(x.mant, i, len(x.mant)), x.mant[i] + B*V(x.mant, i+1, len(x.mant)), P(i))
+//@   hint[ret] x.exp == y.exp && j < len(y.mant) ==> mul_eq(V(y.mant, j, len(y.mant)), y.mant[j] + B*V(y.mant, j+1, len(y.mant)), P(j))
+//@   hint[ret] x.exp == y.exp && result != 0 && len(x.mant) - i == len(y.mant) - j && i >= j ==> mul_eq(P(i), P(j)*P(i - j), y.mant[j])
+//@   hint[ret] x.exp == y.exp && result != 0 && len(x.mant) - i == len(y.mant) - j && i >= j ==> mul_eq(P(i), P(j)*P(i - j), V(y.mant, j+1, len(y.mant)))
+//@   hint[ret] x.exp == y.exp && result != 0 && len(x.mant) - i == len(y.mant) - j && i >= j ==> mul_eq(V(y.mant), V(y.mant, 0, j) + P(j)*(y.mant[j] + B*V(y.mant, j+1, len(y.mant))), P(i - j))
+//@   hint[ret] x.exp == y.exp && result != 0 && len(x.mant) - i == len(y.mant) - j && i >= j ==> mul_eq(V(x.mant, i+1, len(x.mant)), V(y.mant, j+1, len(y.mant)), P(i))
+//@   hint[ret] x.exp == y.exp && result != 0 && len(x.mant) - i == len(y.mant) - j && i < j ==> mul_eq(P(j), P(i)*P(j - i), x.mant[i])
+//@   hint[ret] x.exp == y.exp && result != 0 && len(x.mant) - i == len(y.mant) - j && i < j ==> mul_eq(P(j), P(i)*P(j - i), V(x.mant, i+1, len(x.mant)))
+//@   hint[ret] x.exp == y.exp && result != 0 && len(x.mant) - i == len(y.mant) - j && i < j ==> mul_eq(V(x.mant), V(x.mant, 0, i) + P(i)*(x.mant[i] + B*V(x.mant, i+1, len(x.mant))), P(j - i))
+//@   hint[ret] x.exp == y.exp && result != 0 && len(x.mant) - i == len(y.mant) - j && i < j ==> mul_eq(V(x.mant, i+1, len(x.mant)), V(y.mant, j+1, len(y.mant)), P(j))
+//@   hint[ret] x.exp == y.exp && (result == 0 || len(y.mant) - j < len(x.mant) - i) && len(y.mant) <= len(x.mant) ==> mul_eq(V(x.mant, len(x.mant) - len(y.mant), len(x.mant)), V(y.mant), P(len(x.mant) - len(y.mant)))
+//@   hint[ret] x.exp == y.exp && (result == 0 || len(x.mant) - i < len(y.mant) - j) && len(x.mant) <= len(y.mant) ==> mul_eq(V(y.mant, len(y.mant) - len(x.mant), len(y.mant)), V(x.mant), P(len(y.mant) - len(x.mant)))
+//@   hint[ret] assert(x.exp == y.exp && result != 0 && len(x.mant) - i == len(y.mant) - j && i >= j ==>
+//@        V(x.mant) - V(y.mant)*P(i - j) == V(x.mant, 0, i) - V(y.mant, 0, j)*P(i - j) + P(i)*x.mant[i] - P(i)*y.mant[j])
+//@   hint[ret] assert(x.exp == y.exp && result != 0 && len(x.mant) - i == len(y.mant) - j && i < j ==>
+//@        V(x.mant)*P(j - i) - V(y.mant) == V(x.mant, 0, i)*P(j - i) - V(y.mant, 0, j) + P(j)*x.mant[i] - P(j)*y.mant[j])
+//@   hint[ret] assert(x.exp == y.exp && len(y.mant) - j < len(x.mant) - i ==> V(x.mant) == V(x.mant, 0, len(x.mant) - len(y.mant)) + V(y.mant)*P(len(x.mant) - len(y.mant)))
+//@   hint[ret] assert(x.exp == y.exp && len(x.mant) - i < len(y.mant) - j ==> V(y.mant) == V(y.mant, 0, len(y.mant) - len(x.mant)) + V(x.mant)*P(len(y.mant) - len(x.mant)))
 //@   tags safety C04,C16
 
 //@ func (x *Decimal) Cmp(y *Decimal) int
